@@ -56,6 +56,11 @@ def cases(tier, seed):
     for i in range(n):
         out.append({'name': 'direct-%d' % i, 'kind': 'direct',
                     'seed': [seed, 113, i]})
+    for n, nm in enumerate(drive.repo_inputs()):
+        if tier == 'quick' and n % 3 != 1:
+            continue
+        out.append({'name': 'repo-' + nm[6:-4], 'kind': 'repo', 'input': nm,
+                    'seed': [seed, 114, n]})
     return out
 
 
@@ -199,7 +204,10 @@ def check_unrodded(res, reg, T_c, temps, t_gap, h_gap, adiabatic, k_used,
 
 def run_sweep(case, res):
     rng = np.random.default_rng(case['seed'])
-    if case['kind'] == 'core':
+    P = None
+    if case['kind'] == 'repo':
+        feats = {'repo_input': case['input'], 'tdep': True}
+    elif case['kind'] == 'core':
         P, feats = wl.core_problem(rng, n_ring=2, tdep=(rng.random() < 0.4),
                                    gap=wl.choose(rng, ['flow', 'no_flow',
                                                        'duct_average']),
@@ -209,7 +217,7 @@ def run_sweep(case, res):
         P, feats = wl.single_assembly(rng, coolant_pool=True,
                                       max_rings=5, length=0.3,
                                       vel=wl.loguniform(rng, 0.05, 6.0))
-    key = {'gap': P['gap_model'], 'tdep': feats['tdep']}
+    key = {'gap': (P['gap_model'] if P else 'repo'), 'tdep': feats['tdep']}
     nt = [0]
 
     def on_step(rec):
@@ -246,7 +254,12 @@ def run_sweep(case, res):
                                     htc, key)
 
     with drive.scratch() as d, Hooks() as hk:
-        inp, r = drive.build(P, d, max_steps=MAX_STEPS)
+        if P is None:
+            inp, r = drive.build_repo_input(case['input'], d,
+                                            max_steps=MAX_STEPS)
+            res.tag('repo_input')
+        else:
+            inp, r = drive.build(P, d, max_steps=MAX_STEPS)
         StepMonitor(hk, on_step)
         drive.sweep(r)
         for a in r.assemblies:
@@ -255,7 +268,7 @@ def run_sweep(case, res):
                                      else reg.model))
                 if reg.is_rodded:
                     res.tag('n_duct=%d' % reg.n_duct)
-    res.tag('gap=' + P['gap_model'])
+    res.tag('gap=' + (P['gap_model'] if P else 'repo'))
     res.tag('tdep=%s' % feats['tdep'])
     if nt[0] >= 100:
         res.nontrivial(repr(sorted(feats.items(), key=str)))
